@@ -592,6 +592,21 @@ def rule_o11(repo):
                 'system is answered satisfiable' % (n.lineno, '`, `'.join(src(t, 30) for t in tests)), 'prover/simplex.py:%d' % n.lineno)
     return res
 
+def _whole_list(v):
+    """the expression denotes the parent's list `<..>.original` with nothing left out: the attribute itself, a copy of it
+    (list(), tuple(), [:], copy()), or a comprehension over it without a condition"""
+    if (path_of(v) or '').endswith('.original'):
+        return True
+    if isinstance(v, ast.Call) and (call_name(v) in ('list', 'tuple', 'copy', 'copy.copy') or call_attr(v) == 'copy') and (v.args or isinstance(v.func, ast.Attribute)):
+        return _whole_list(v.args[0] if v.args else v.func.value)
+    if isinstance(v, ast.Subscript) and isinstance(v.slice, ast.Slice) and v.slice.lower is None and v.slice.upper is None and v.slice.step is None:
+        return _whole_list(v.value)
+    if isinstance(v, (ast.ListComp, ast.GeneratorExp)) and len(v.generators) == 1 and not v.generators[0].ifs and \
+            isinstance(v.elt, ast.Name) and isinstance(v.generators[0].target, ast.Name) and v.elt.id == v.generators[0].target.id:
+        return _whole_list(v.generators[0].iter)
+    return False
+
+
 def rule_o12(repo):
     """Branch and bound answers for the system it was given only if every sub-problem keeps *all* the constraints of its parent and adds
     one.  The children are built with `add_ineqs(<new bound>, *<parent>.original)`: the list handed over is the parent's list as it is.
@@ -607,7 +622,7 @@ def rule_o12(repo):
     for i, c in enumerate(calls):
         star = [a for a in c.args if isinstance(a, ast.Starred)][0]
         v = flow.inline(star.value)
-        whole = (path_of(v) or '').endswith('.original')
+        whole = _whole_list(v)
         res.add('prover/simplex.py :: branch_and_bound :: child#%d-inherits' % (i + 1), whole,
                 'the child is given `*%s`' % src(v, 40) if whole else
                 'line %d builds a sub-problem from `%s`, not from the parent\'s whole list of constraints: what is left out no longer binds the witness '
